@@ -257,6 +257,43 @@ def assign(lhs, value, env):
     return new
 
 
+def read_lvalue(lhs, env, new):
+    """Current contents of an lvalue during a read-modify-write: the data bits come from `new` (the
+    values being built up by earlier assignments of the same process), while part-select offsets and
+    array indices are ordinary right-hand-side reads of `env` (the current values)."""
+    from amaranth.hdl import _ast as A
+    if isinstance(lhs, A.Signal):
+        return new[lhs]
+    if isinstance(lhs, A.Operator) and lhs.operator in ("u", "s"):
+        inner = lhs.operands[0]
+        return norm(read_lvalue(inner, env, new), len(inner), lhs.operator == "s")
+    if isinstance(lhs, A.Slice):
+        return (read_lvalue(lhs.value, env, new) >> lhs.start) & mask(lhs.stop - lhs.start)
+    if isinstance(lhs, A.Part):
+        iw = len(lhs.value)
+        cur = read_lvalue(lhs.value, env, new) & mask(iw)
+        off = sem(lhs.offset, env) * lhs.stride
+        off_c = ite(off >= iw, iw, off)
+        return (cur >> off_c) & mask(lhs.width)
+    if isinstance(lhs, A.Concat):
+        res, pos = 0, 0
+        for part in lhs.parts:
+            w = len(part)
+            res = res | ((read_lvalue(part, env, new) & mask(w)) << pos)
+            pos += w
+        return res
+    if isinstance(lhs, A.SwitchValue):
+        tw = len(lhs.test)
+        t = sem(lhs.test, env) & mask(tw)
+        res = 0
+        for patterns, elem in reversed(lhs.cases):
+            v = read_lvalue(elem, env, new)
+            cond = True if patterns is None else any_of(pattern_matches(p, t, tw) for p in patterns)
+            res = ite(cond, v, res)
+        return res
+    raise NotImplementedError(f"spec: read of lvalue {type(lhs).__name__}")
+
+
 def _assign(lhs, value, env, new, cond=True):
     """Writes under symbolic condition `cond` (non-forking)."""
     from amaranth.hdl import _ast as A
@@ -270,7 +307,7 @@ def _assign(lhs, value, env, new, cond=True):
     if isinstance(lhs, A.Slice):
         inner = lhs.value
         w = lhs.stop - lhs.start
-        cur = sem(inner, new) & mask(len(inner))
+        cur = read_lvalue(inner, env, new) & mask(len(inner))
         upd = (cur & ~(mask(w) << lhs.start)) | ((value & mask(w)) << lhs.start)
         _assign(inner, upd, env, new, cond)
         return
@@ -279,7 +316,7 @@ def _assign(lhs, value, env, new, cond=True):
         iw = len(inner)
         off = sem(lhs.offset, env) * lhs.stride
         w = lhs.width
-        cur = sem(inner, new) & mask(iw)
+        cur = read_lvalue(inner, env, new) & mask(iw)
         # bits of the window that fall outside `inner` are dropped: clamp the shift so that the
         # expression stays bounded (a shift by >= iw writes nothing)
         off_c = ite(off >= iw, iw, off)
